@@ -395,7 +395,18 @@ func evalOne(c *core.Ctx, op opCase, limbs int, a, b []uint64, n uint) (detail m
 			detail["exact"] = ev.String()
 			kind := "partial-products"
 			if ba.BitLen() > int(width)/2 && bb.BitLen() > int(width)/2 {
-				kind = "both-operands-wider-than-half"
+				// the recorded defect of Uint128.Mul: the product of the two high limbs is never
+				// examined. It is the ONLY overflowing contribution exactly when the product without
+				// that term fits; when the cross terms overflow as well the overflow must be seen.
+				half := width / 2
+				hiA, hiB := new(big.Int).Rsh(ba, half), new(big.Int).Rsh(bb, half)
+				top := new(big.Int).Lsh(new(big.Int).Mul(hiA, hiB), width)
+				rest := new(big.Int).Sub(new(big.Int).Mul(ba, bb), top)
+				if op.name != "Mul" || rest.BitLen() <= int(width) {
+					kind = "both-operands-wider-than-half"
+				} else {
+					kind = "partial-products:both-operands-wider-than-half"
+				}
 			}
 			c.Violate(cls+":overflow-missed:"+kind, fmt.Sprintf("Uint%d.%s: exact result does not fit but no overflow was signalled", width, op.name), detail)
 			return detail, true, false
